@@ -716,8 +716,8 @@ pub fn suite_clone(dir: &str, seed: u64, thorough: bool, st: &mut Stats) {
                 Ok((b, low)) => {
                     let shifted: Vec<Tev> = small.trace.iter().map(|e| match e { Tev::Seek(o) => Tev::Seek(o + BIG_BASE), Tev::Write(o, d) => Tev::Write(o + BIG_BASE, d.clone()), x => x.clone() }).collect();
                     if !low.is_empty() { st.violation("C13", &format!("in-place clone placed beyond 2^32 touches offset {} (below the base: a chunk that is in place, or a truncated offset)", low[0]), &line); }
-                    else if b.status != small.status || b.file != small.file { st.violation("C03", &format!("in-place clone placed beyond 2^32 ends {} with another content than the same clone at offset 0 ({})", b.status, small.status), &line); }
-                    else if b.trace != shifted { st.violation("C13", "in-place clone placed beyond 2^32 issues other reads/writes than the same clone at offset 0", &line); }
+                    if b.status != small.status || b.file != small.file { st.violation("C03", &format!("in-place clone placed beyond 2^32 ends {} with another content than the same clone at offset 0 ({})", b.status, small.status), &line); }
+                    else if !low.is_empty() {} else if b.trace != shifted { st.violation("C13", "in-place clone placed beyond 2^32 issues other reads/writes than the same clone at offset 0", &line); }
                     else if b.moved != small.moved + BIG_BASE || b.fed != small.fed || b.idx != small.idx { st.violation("C03", "in-place clone placed beyond 2^32 reports other counts than the same clone at offset 0 (plus the 3 * 2^31 bytes in place before it)", &line); }
                 }
             }
